@@ -278,7 +278,7 @@ def main():
 
 NA = {}
 HOOK_COMMITS = ["bffe7c1", "d8cae5e", "19a33f0", "aa520e8"]
-FIX_COMMITS = ["ac69fcc", "f14e602", "7290d0d", "11d5f11", "edf91ea", "ab4ad20", "ff68f31", "db26c33", "683ece4", "876170d", "cff6cea", "c441972", "a61c99a", "3e9c947", "7ee8ccd", "d4a8335", "03140f4", "0f96341"]
+FIX_COMMITS = ["ac69fcc", "f14e602", "7290d0d", "11d5f11", "edf91ea", "ab4ad20", "ff68f31", "db26c33", "683ece4", "876170d", "cff6cea", "c441972", "a61c99a", "3e9c947", "7ee8ccd", "d4a8335", "03140f4", "0f96341", "3687a9b"]
 
 if __name__ == "__main__":
     main()
